@@ -251,9 +251,9 @@ pub fn run(_scenario: u32, choices: &[u8], _strict: bool) -> Outcome {
         guid: GUID::new(
           prefix,
           if is_reader {
-            rig::user_reader_eid(e as u8 + 1, true)
+            rig::peer_eid(e as u8, true)
           } else {
-            rig::user_writer_eid(e as u8 + 1, true)
+            rig::peer_eid(e as u8, false)
           },
         ),
         is_reader,
